@@ -8,6 +8,10 @@ CLAIMS = {
   text="Coq theorems (Props/C02.v): for every well-formed scan shape of any size the modelled scanner includes exactly the denoted lines (C02_includes), is_last is sound (C02_is_last_sound), and for every matcher and every file the run loop offers exactly the denoted non-blank records and counts them (C02_run). The model is tied to /repo on every run by comparing the real Scanner and real CsvPath.collect() with the model evaluated by the Coq kernel on enumerated + random scan parts and files.",
   note="Trusted: Coq kernel, the hand model Scan/ScanModel.v + Run/RunLoop.v as far as the correspondence sample shows it equal to the code, the Python harness; PLY's LALR reduce order is modelled, not verified. No axioms (Print Assumptions: closed).",
   technique="Coq proof over hand-written Gallina model + kernel-evaluated differential correspondence with the implementation"),
+ "C05": dict(
+  text="Coq theorem C05_outcome (Props/C05.v): for all 64 policies, all validation-mode settings and every prior state the model of ErrorHandler._handle_if yields exactly the conjunction of flags (raise -> exception after the other effects, collect -> one record with the line number, stop, fail, print), each flag being the csvpath's own validation-mode setting when present; C05_quiet_is_silent, C05_monotone (verdict/stop never revert, records only grow), C05_vote (a component with an error votes False without 'match'). Tie: the real ErrorHandler.handle_error is called for every policy x every validation-mode comment and compared with model and statement by the Coq kernel; real csvpaths with 6 kinds of error-provoking component (incl. the blank-final-record last() path) are run under every policy x 5 validation modes x offending-line sets and judged against the property's statement. C05_quiet_refuted is the witness of repaired defect D5.",
+  note="Trusted: Coq kernel; Match/Errors.v as far as the handler correspondence shows it equal to error.py; the run-level expectations are the property's statement for the generated program shapes (harness); validation-mode 'match' is not asserted on. No axioms.",
+  technique="Coq proof over handler model (all policies x modes) + kernel-evaluated correspondence by direct handler calls + policy-matrix runs of the real interpreter"),
  "C06": dict(
   text="Coq theorems (Props/C06.v): for every dialect (delimiter <> quote, neither CR/LF) and all rows of CR-free cells of any size, the modelled csv.writer -> open() -> csv.reader round trip is the identity (C06_csv_roundtrip, induction over rows/cells/characters); composed with the run loop, [*][yes()] returns exactly the non-blank records cell for cell (C06_lines) and for EVERY matcher/scan/mode the returned lines are a sub-sequence of the file's records (C06_delivered_as_is); headers are the cleaned first non-blank record (C06_headers, C06_clean_header); #name and #index address the same cell and short rows read as absent (C06_name_index, C06_short_row). Tie: each run compares real csv.writer bytes, real CsvPath(delimiter,quotechar).collect() lines, CsvPath.headers and pushed #index/#name values with the model and with the property, the comparison being computed by the Coq kernel.",
   note="Trusted: Coq kernel; Csv/CsvModel.v as a model of CPython's _csv and universal newlines (tied by correspondence on every generated file); Data/DataModel.v; harness. No axioms.",
